@@ -39,6 +39,8 @@ def ll_login(w, sc):
 
     if sc.get("salt"):
         lines.append(fmt("rng_script", chunks=sc["salt"]))
+    if sc.get("noise"):
+        lines.append("noise\tk=%d" % sc["noise"])
     lines.append(fmt("ver_new", id=nid("ver"), into=1, u=sc["user"], p=sc["pw"]))
     vh = 1
     if sc.get("reimport"):
@@ -48,10 +50,20 @@ def ll_login(w, sc):
     if sc.get("b"):
         lines.append(fmt("rng_script", chunks=sc["b"]))
     lines.append(fmt("ver_proof", id=nid("proof"), h=vh, into=3))
+    lc = sc.get("lifecycle")
+    if lc == "use_clone_drop_original":
+        lines += ["clone\th=3\tinto=13", "drop\th=3", "clone\th=13\tinto=3", "drop\th=13"]
+    elif lc == "drop_clone_use_original":
+        lines += ["clone\th=3\tinto=13", "drop\th=13"]
+    elif lc == "clone_fails_first":
+        # a copy is consumed by a failing attempt (wrong proof) before the original takes the honest one
+        lines += ["clone\th=3\tinto=13", "proof_server\th=13\tinto=14\tA=%s\tM1=%s" % ((b"\x05" + bytes(31)).hex(), bytes(20).hex())]
     if sc.get("a"):
         lines.append(fmt("rng_script", chunks=sc["a"]))
     lines.append("cli_new\tid=%d\tinto=4\tu=%s\tp=%s\tg=7\tN=%s\tB=$%d.B\tsalt=$%d.salt" % (
         nid("cli"), sc["cuser"].encode().hex(), sc["cpw"].encode().hex(), N_LE.hex(), ids["proof"], ids["proof"]))
+    if lc == "use_clone_drop_original":
+        lines += ["clone\th=4\tinto=14", "drop\th=4", "clone\th=14\tinto=4", "drop\th=14"]
     lines.append("proof_server\tid=%d\th=3\tinto=5\tA=$%d.A\tM1=$%d.M1" % (nid("srv"), ids["cli"], ids["cli"]))
     lines.append("cli_verify\tid=%d\th=4\tinto=6\tM2=$%d.M2" % (nid("fin"), ids["srv"]))
     # batch: a failing step makes later refs unresolvable -> those come back as 'bad';
@@ -64,6 +76,8 @@ def ll_login(w, sc):
     s.events = evs
     byop = {}
     for l, e in zip(lines, evs):
+        if "\tinto=14" in l and l.startswith("proof_server"):
+            continue  # the deliberately failing attempt of the lifecycle scenario
         byop.setdefault(l.split("\t", 1)[0], []).append(e)
     for e in evs:
         if e.status == "panic":
@@ -172,3 +186,64 @@ def whitebox(s):
     info["hz"] = {"S": M.high_zero_bytes(ss["S"]), "A": M.high_zero_bytes(M.le(s.A)),
                   "B": M.high_zero_bytes(M.le(s.B)), "v": M.high_zero_bytes(v)}
     return info, True
+
+
+def parse_transcripts(ev, threads):
+    """mt_logins event -> list of (thread index, dict)"""
+    out = []
+    for t in range(threads):
+        raw = ev.f.get("t%d" % t, "")
+        for item in raw.split(","):
+            if not item:
+                continue
+            d = {}
+            for kv in item.split(";"):
+                k, _, v = kv.partition("=")
+                d[k] = v
+            out.append((t, d))
+    return out
+
+
+def judge_transcript(d, mon, prefix, with_model, replay):
+    """One login that ran on one of several threads of one process. Model-free part: both accept, keys equal.
+    With the model: verifier, public keys for the logged draws, K, M1, M2 byte-exact."""
+    mon.ev()
+    if d.get("srv") != "ok":
+        mon.violation(prefix + ":mt:server_rejects", "in a multi-threaded process the server refused an honest client: %s" % {k: d.get(k) for k in ("u", "p", "cp", "sp")}, replay)
+        return
+    if d.get("cli") != "ok":
+        mon.violation(prefix + ":mt:client_rejects", "in a multi-threaded process the client refused the honest server's proof", replay)
+        return
+    if d.get("Ks") != d.get("Kc") or len(d.get("Ks", "")) != 80:
+        mon.violation(prefix + ":mt:keys_differ", "in a multi-threaded process the two session keys differ", replay)
+        return
+    if not with_model:
+        return
+    user = bytes.fromhex(d["u"]).decode()
+    pw = bytes.fromhex(d["p"]).decode()
+    un, pn = M.norm(user), M.norm(pw)
+    salt = bytes.fromhex(d["salt"])
+    v = M.to_le(M.calc_v(un, pn, salt))
+    if v.hex() != d["v"]:
+        mon.violation(prefix + ":mt:verifier", "verifier differs from the model in a multi-threaded process (user %r)" % user, replay)
+        return
+    B, A = bytes.fromhex(d["B"]), bytes.fromhex(d["A"])
+    srv = None
+    for cand in key_candidates([bytes.fromhex(x) for x in d.get("db", "").split("+") if x]):
+        t = M.ServerSide(un, v, salt, M.le(cand))
+        if t.B_bytes == B:
+            srv = t
+            break
+    if srv is None:
+        mon.count("mt_logins_not_attributable")
+        # black-box: the model client cannot be run after the fact; agreement was checked above
+        return
+    ss = srv.session(A)
+    mon.count("mt_logins_compared_with_model")
+    if ss["K"].hex() != d["Ks"] or ss["M1"].hex() != d["M1"] or ss["M2"].hex() != d["M2"]:
+        mon.violation(prefix + ":mt:values_differ_from_model", "K / M1 / M2 of a login in a multi-threaded process differ from the model (user %r, z=%d)" % (
+            user, M.low_zero_bytes(ss["S"])), replay)
+    for cand in key_candidates([bytes.fromhex(x) for x in d.get("da", "").split("+") if x]):
+        if M.to_le(M.calc_A(M.le(cand))) == A:
+            mon.count("mt_A_attributed")
+            break
